@@ -60,6 +60,16 @@ def confirm(prop, n, sid=None, srcroot=None):
         os.remove(dst)
         rc, out = sh(["git", "apply", patch], cwd=SCRATCH)
         if rc != 0:
+            # the tree moved on under the patch (a later fix: commit nearby): three-way merge, keep the rebased diff
+            rc, out2 = sh(["git", "apply", "--3way", patch], cwd=SCRATCH)
+            if rc == 0:
+                sh(["git", "reset", "-q"], cwd=SCRATCH)
+                rc2, rebased = sh(["git", "diff"], cwd=SCRATCH)
+                patch = os.path.join(src, f"patch{n}.rebased.diff")
+                open(patch, "w").write(rebased)
+                res["rebased"] = True
+            out = out + out2
+        if rc != 0:
             res["applies"] = False
             res["apply_out"] = out[-400:]
             print(json.dumps(res, indent=1)); return False
